@@ -73,7 +73,10 @@ impl Program {
         let f = f.max(0) as u64;
         let p = p as u64;
         match self {
-            Program::Changing => 1 + ((2 * f + 3 * p) % 5) as u8,
+            // consecutive frames always differ (the step is 2, 3 or 4 mod 5) and the period is
+            // 175 frames, so that no ring size in the crate (30, 32, 60, 128, window+1) maps a frame
+            // onto one with the same value pattern
+            Program::Changing => 1 + ((2 * f + 3 * p + f / 5 + f / 7) % 5) as u8,
             Program::Runs => 1 + (((f + p) / 3 + p) % 5) as u8,
             Program::Sparse => {
                 if (f + 2 * p) % 7 == 3 {
